@@ -628,7 +628,13 @@ func (c *rowopsCtx) runQuery(row jsonline.Row, sink *scalarSink, hist string) (s
 	var q, a string
 	var desc string
 	p, msg := guard(func() {
-		switch r.intn(13) {
+		switch r.intn(15) {
+		case 13, 14:
+			t := newMapTarget(r.intn(5))
+			desc = fmt.Sprintf("MapTo(%T)", t)
+			q = "QMapTo " + gMapTarget(t)
+			row.MapTo(t)
+			a = "AFields " + gMapFields(t)
 		case 0:
 			k := genKey(r)
 			desc = "Has " + k
@@ -1359,7 +1365,7 @@ func rowopsStream(seed uint64, tier string, outDir string, props map[string]bool
 		}
 		name := fmt.Sprintf("RowCases_%d.v", len(rep.CaseFiles))
 		var sb strings.Builder
-		sb.WriteString("From Coq Require Import ZArith List.\nFrom JL.std Require Import GoBase GoFloat GoStrconv GoTime GoVal.\nFrom JL.model Require Import CastRun Row RowRun.\nImport ListNotations.\nOpen Scope Z_scope.\n")
+		sb.WriteString("From Coq Require Import ZArith List.\nFrom JL.std Require Import GoBase GoFloat GoStrconv GoTime GoVal.\nFrom JL.model Require Import CastRun Row MapTo RowRun.\nImport ListNotations.\nOpen Scope Z_scope.\n")
 		sb.WriteString("Definition cases : list rcase := [\n")
 		sb.WriteString(strings.Join(cases, ";\n"))
 		sb.WriteString("\n].\nDefinition M := Eval vm_compute in row_mismatches 0 cases.\nPrint M.\n")
